@@ -286,3 +286,17 @@ func contract_UnmarshalOptions_unmarshalMap(o UnmarshalOptions, b []byte, wtyp p
 	modifiesAll()
 	return
 }
+
+// ---------------------------------------------------------------- reflection-path Merge/Clone: bytes are copied (C14)
+
+// cloneBytes hands ValueOfBytes a slice that shares no memory with the source value: a freshly
+// allocated array (or an empty slice).
+//
+// @ props C14
+// @ mode int
+// @ nopanic
+// @ callsite protoreflect.ValueOfBytes: freshSlice(arg[[]byte](0)) || len(arg[[]byte](0)) == 0
+func contract_mergeOptions_cloneBytes(o mergeOptions, v protoreflect.Value) (r protoreflect.Value) {
+	modifiesAll()
+	return
+}
